@@ -26,15 +26,16 @@ def main():
     res = {'property': prop, 'change': k, 'source': 'independent sub-agent given only the property text and a scratch worktree'}
     try:
         txt = open(demo).read()
-        m = re.search(r'//\s*(g\+\+[^\n]*)', txt)
+        m = re.search(r'//\s*((?:cd [^\n&]*&&\s*)?g\+\+[^\n]*)', txt)
         cmd = m.group(1).strip()
         # continuation lines of the build command
         seed_root = re.search(r'(/tmp/seed_C\d+)', cmd).group(1)
         shutil.copy(demo, os.path.join(wt, 'demo.cpp'))
-        cmd = cmd.replace('%s/out/demo%s.cpp' % (seed_root, k), wt + '/demo.cpp')
+        cmd = cmd.replace('%s/out/demo%s.cpp' % (seed_root, k), wt + '/demo.cpp').replace('../out/demo%s.cpp' % k, wt + '/demo.cpp')
         cmd = re.sub(r'-o\s+\S+', '-o %s/demo.bin' % wt, cmd)
         cmd = cmd.replace(seed_root + '/src', wt + '/src')
-        build = cmd.split('&&')[0].strip()
+        parts = [x.strip() for x in cmd.split('&&')]
+        build = ' && '.join(parts[:2]) if parts[0].startswith('cd ') else parts[0]
         rc, out = sh(build, timeout=900)
         res['demo_build_pristine'] = rc
         rc, out = sh(wt + '/demo.bin', timeout=300)
